@@ -21,11 +21,12 @@ import Driver.Loader
 import Driver.EditDoc
 import Driver.StringCase
 import Driver.Verify
+import Driver.Injection
 
 open Lean Driver
 
 def allOps : List (String × Handler) :=
-  notationOps ++ indentOps ++ printOps ++ suppressOps ++ spliceOps ++ topoOps ++ selectOps ++ workerOps ++ lspOps ++ frontendsOps ++ loaderOps ++ editDocOps ++ stringCaseOps ++ verifyOps
+  notationOps ++ indentOps ++ printOps ++ suppressOps ++ spliceOps ++ topoOps ++ selectOps ++ workerOps ++ lspOps ++ frontendsOps ++ loaderOps ++ editDocOps ++ stringCaseOps ++ verifyOps ++ injectionOps
 
 /-- ops that read or extend the driver state (registered documents) -/
 def allStateOps : List (String × SHandler) :=
